@@ -42,6 +42,33 @@ func holdingsOf(a *hAccount) []holding {
 	return hs
 }
 
+// amountFor: a quantity argument around a holding of any size (holdings beyond 64 bits: exact, one less, one more, 2^64, 2^64+small)
+func (c *ctx) amountFor(bal *big.Int, div uint64) []byte {
+	if bal.IsUint64() {
+		return c.amount(bal.Uint64() / div)
+	}
+	switch c.rng.Intn(7) {
+	case 0:
+		return new(big.Int).Set(bal).Bytes()
+	case 1:
+		return new(big.Int).Sub(bal, big.NewInt(1)).Bytes()
+	case 2:
+		return new(big.Int).Add(bal, big.NewInt(1)).Bytes()
+	case 3:
+		return big64(0)
+	case 4:
+		return big64(uint64(1 + c.rng.Intn(9)))
+	case 5:
+		return new(big.Int).Rsh(bal, 1).Bytes()
+	}
+	return c.amount(1000)
+}
+
+// richNonce: nonces around the byte boundaries (only meaningful in rich worlds)
+func (g *gen) richNonce() uint64 {
+	return []uint64{1, 2, 255, 256, 257, 512, 65536, 1 << 32, 3}[g.c.rng.Intn(9)]
+}
+
 type gen struct {
 	c *ctx
 	u *universe
@@ -59,6 +86,9 @@ func (g *gen) anyAddr() []byte {
 	pool := [][]byte{u.U[0], u.U[1], u.U[2], u.U[3], u.K[0], u.K[1], u.U[0], u.U[2]}
 	if g.c.rng.Intn(12) == 0 {
 		pool = [][]byte{u.SC, u.SYS, u.DNS, u.Short, u.Long, u.MetaUser}
+		if u.rich {
+			pool = append(pool, u.SysVar, u.MetaSCs[0], u.MetaSCs[1], u.MetaSCs[2])
+		}
 	}
 	return g.c.pick(pool)
 }
@@ -120,44 +150,54 @@ func (g *gen) transferOp() *worldOp {
 	switch c.rng.Intn(3) {
 	case 0: // ESDTTransfer
 		tok := g.anyTok()
-		bal := uint64(0)
+		bal := big.NewInt(0)
 		for _, h := range hs {
-			if h.Nonce == 0 && bytes.Equal(h.Tok, tok) && h.Bal.IsUint64() {
-				bal = h.Bal.Uint64()
+			if h.Nonce == 0 && bytes.Equal(h.Tok, tok) {
+				bal = h.Bal
 			}
 		}
-		args := [][]byte{tok, c.amount(bal)}
+		args := [][]byte{tok, c.amountFor(bal, 1)}
 		args = append(args, g.callSuffix(to)...)
 		cs = w.mkCall(w.shardOf(from), "ESDTTransfer", from, to, args, c.gasAround(g.cost("ESDTTransfer")))
 	case 1: // ESDTNFTTransfer
-		tok, nonce, bal := g.anyTok(), uint64(1+c.rng.Intn(3)), uint64(1)
+		tok, nonce, bal := g.anyTok(), uint64(1+c.rng.Intn(3)), big.NewInt(1)
+		if g.u.rich && c.rng.Intn(3) == 0 {
+			tok, nonce = g.u.HiTok, g.richNonce()
+		}
 		if len(hs) > 0 && c.rng.Intn(5) != 0 {
 			h := hs[c.rng.Intn(len(hs))]
-			tok, nonce = h.Tok, h.Nonce
-			if h.Bal.IsUint64() {
-				bal = h.Bal.Uint64()
-			}
+			tok, nonce, bal = h.Tok, h.Nonce, h.Bal
 		}
 		nb := be(nonce)
 		if c.rng.Intn(15) == 0 {
 			nb = c.pick(wrapCounts)
 		}
-		args := [][]byte{tok, nb, c.amount(bal), to}
+		args := [][]byte{tok, nb, c.amountFor(bal, 1), to}
 		args = append(args, g.callSuffix(to)...)
 		cs = w.mkCall(w.shardOf(from), "ESDTNFTTransfer", from, from, args, c.gasAround(g.cost("ESDTNFTTransfer")+400))
 	default: // MultiESDTNFTTransfer
 		k := 1 + c.rng.Intn(3)
 		var triples [][]byte
+		dup := c.rng.Intn(8) == 0 // the same cell listed more than once, each quantity within the holding, the sum possibly above it
+		var dupH *holding
 		for i := 0; i < k; i++ {
-			tok, nonce, bal := g.anyTok(), uint64(c.rng.Intn(3)), uint64(5)
+			tok, nonce, bal := g.anyTok(), uint64(c.rng.Intn(3)), big.NewInt(5)
+			div := uint64(k)
 			if len(hs) > 0 && c.rng.Intn(6) != 0 {
 				h := hs[c.rng.Intn(len(hs))]
-				tok, nonce = h.Tok, h.Nonce
-				if h.Bal.IsUint64() {
-					bal = h.Bal.Uint64() / uint64(k)
+				if dup {
+					if dupH == nil {
+						dupH = &h
+					}
+					h, div = *dupH, 1
 				}
+				tok, nonce, bal = h.Tok, h.Nonce, h.Bal
 			}
-			triples = append(triples, tok, be(nonce), c.amount(bal))
+			q := c.amountFor(bal, div)
+			if dup && bal.IsUint64() && c.rng.Intn(2) == 0 {
+				q = be(bal.Uint64()/2 + 1)
+			}
+			triples = append(triples, tok, be(nonce), q)
 		}
 		cnt := be(uint64(k))
 		switch c.rng.Intn(14) {
@@ -189,6 +229,9 @@ func (g *gen) supplyOp() *worldOp {
 	hs := holdingsOf(acc)
 	pickNFT := func() (tok []byte, nonce uint64, bal uint64) {
 		tok, nonce, bal = c.pick(u.NFTs), uint64(1+c.rng.Intn(3)), 1
+		if u.rich && c.rng.Intn(3) == 0 {
+			tok, nonce = u.HiTok, g.richNonce()
+		}
 		var nf []holding
 		for _, h := range hs {
 			if h.Nonce > 0 {
@@ -228,7 +271,11 @@ func (g *gen) supplyOp() *worldOp {
 		if c.rng.Intn(2) == 0 {
 			q = be(1)
 		}
-		args = [][]byte{c.pick(u.NFTs), q, []byte("name"), roy, []byte("hash"), []byte("attributes")}
+		ctok := c.pick(u.NFTs)
+		if u.rich && c.rng.Intn(3) == 0 {
+			ctok = u.HiTok
+		}
+		args = [][]byte{ctok, q, []byte("name"), roy, []byte("hash"), []byte("attributes")}
 		for i := 0; i < 1+c.rng.Intn(3); i++ {
 			args = append(args, bytes.Repeat([]byte{'u'}, c.rng.Intn(5)))
 		}
@@ -282,7 +329,11 @@ func (g *gen) systemOp() *worldOp {
 		args = [][]byte{tok, c.pick(u.AllRoles)}
 		fn = "ESDTUnSetRole"
 	case 7:
-		fn, args = "ESDTNFTCreateRoleTransfer", [][]byte{c.pick(u.NFTs), g.holder()}
+		rt := c.pick(u.NFTs)
+		if u.rich && c.rng.Intn(3) == 0 {
+			rt = u.HiTok
+		}
+		fn, args = "ESDTNFTCreateRoleTransfer", [][]byte{rt, g.holder()}
 	default:
 		fn, args = "ESDTTransfer", [][]byte{c.pick(u.Fung), be(uint64(1 + c.rng.Intn(50)))}
 	}
@@ -295,6 +346,16 @@ func (g *gen) systemOp() *worldOp {
 	}
 	cs := &callSpec{Shard: sh, Fn: fn, Caller: u.SC, Rcpt: target, Args: args, Value: big.NewInt(0), Gas: uint64(c.rng.Intn(3)) * 1000,
 		Snd: false, Dst: true, FailAt: -1}
+	if u.rich {
+		switch c.rng.Intn(10) {
+		case 0: // a metachain contract that is NOT the ESDT system contract tries a system-only operation
+			cs.Caller = c.pick(u.MetaSCs)
+		case 1: // a system operation addressed to the non-canonical system-account address
+			if fn == "ESDTPause" || fn == "ESDTUnPause" {
+				cs.Rcpt = u.SysVar
+			}
+		}
+	}
 	return &worldOp{Kind: opSys, Call: cs}
 }
 
